@@ -270,6 +270,23 @@ def rule_window_tiling(ctx: Ctx) -> None:
         ctx.check(got in accepted, "C19.2", f"{k} aggregates the window's trades correctly", flush, flush.node,
                   f"(first trade, later trades) -> {got}", f"{k} is updated as (first trade, later trades) -> {got}, expected {accepted[0]}",
                   key_text=f"aggregate {k}")
+    # the skip-first-bar flag is consumed by the first flush, whatever that window contained
+    gf = ctx.cfg(flush)
+    clr = [s_ for s_ in A.stores(flush) if A.dotted(s_.target) == "self._skip_first_bar" and isinstance(s_.node, ast.Assign) and A.const_value(s_.node.value) is False]
+    if clr:
+        cn_ = gf.nodes_for(clr[0].stmt)[0]
+        pth = gf.always_followed_by(gf.entry, lambda n: n is cn_, labels=C.NO_EXC)
+        ctx.check(pth is None, "C19.2", "every flush consumes the skip-first-bar flag", flush, clr[0].stmt, "self._skip_first_bar = False on every path",
+                  "a flush can return without clearing the skip-first-bar flag (e.g. an early return for an empty window): the flag then swallows "
+                  "a later, complete window and its trades end up in no bar", detail={"path": C.fmt_path(pth) if pth else []}, key_text="skip flag consumed")
+        reads = [n for n in gf.nodes if n.ast is not None and n is not cn_ and any(isinstance(x, ast.Attribute) and x.attr == "_skip_first_bar"
+                 and isinstance(x.ctx, ast.Load) for e in C.exprs_of(n) for x in C.walk_shallow(e))]
+        ctx.check(bool(reads) and all(gf.path_avoiding(gf.entry, lambda n, r=r: n is r, lambda n: n is cn_) is not None for r in reads), "C19.2",
+                  "only the first flush is affected by the flag", flush, clr[0].stmt, "flag read before it is cleared", "flag is cleared before it is read",
+                  key_text="skip flag read first")
+    else:
+        ctx.bad("C19.2", "every flush consumes the skip-first-bar flag", flush, flush.node, "self._skip_first_bar is never cleared in _flush: every bar is skipped",
+                key_text="skip flag consumed")
     # in-order guard of push_trade
     pt = ctx.func(f"{cls}.push_trade")
     cmp_ = [n for n in C.walk_shallow(pt.node) if isinstance(n, ast.Compare) and isinstance(n.ops[0], ast.Lt)
